@@ -93,7 +93,7 @@ CLAIMS = {
         "design_ref": "DESIGN.md section 4 C07",
     },
     "C11": {
-        "engine": "V+T",
+        "engine": "V+T+F",
         "technique": "Verus on the extracted real find_parents (recursive, with termination measure and pigeonhole lemma); engine T on the VM call graph",
         "text": "Proof, unbounded over all registries: find_parents returns Ok(ps) iff the extends chain from start is complete, duplicate-free and ends in a template that extends nothing, ps being that chain root-first; Err(MissingParent) implies a dangling link on the chain, Err(CircularExtend) implies the chain revisits a template; it terminates (decreases |names| - |parents|).",
         "note": "Tera is opaque (names, resolution function, stored template); check_include_cycles is not decided; runtime termination has known finding D3.",
